@@ -1,7 +1,7 @@
 // Native search driver for the OUTCOME of cipher negotiation at handshake level (property C06, obligations initstage::InitState::handle_init
 // and initenc::*): two real handshake objects run ping / pong / peng for every pair of advertised lists from
 //   subsets of {AES128, AES256, CHACHA20} (8 x 8), every order of the own list (up to 6), both plain flags (4),
-//   speed patterns from {0.0, 1.0e-30, 1.0, 100.0, 100.0 (tie), 3.0e38} (bound: 7 patterns per side -> about 75 000 handshakes sampled
+//   speed patterns from {0.0, 1.0e-30, 1.0, 100.0, 100.0 (tie), near ties within 1 %, 3.0e38} (bound: 9 patterns per side -> about 120 000 handshakes sampled
 //   down to every 3rd combination),
 // and the crypto cores they hand over are inspected:
 //   - both ends complete, or both fail cleanly (the responder fails on the ping, nobody completes) - and they fail iff they share no
@@ -55,7 +55,9 @@ fn run(a: &Algorithms, b: &Algorithms) -> Result<Option<Option<&'static str>>, S
 fn negotiated_outcome_matches_the_property() {
     let all: [&'static Algorithm; 3] = [&AES_128_GCM, &AES_256_GCM, &CHACHA20_POLY1305];
     let orders: [[usize; 3]; 6] = [[0, 1, 2], [0, 2, 1], [1, 0, 2], [1, 2, 0], [2, 0, 1], [2, 1, 0]];
-    let speeds: [[f32; 3]; 7] = [[600.0, 500.0, 400.0], [0.0, 0.0, 0.0], [1.0e-30, 0.0, 1.0], [100.0, 100.0, 100.0], [3.0e38, 1.0, 100.0], [0.0, 100.0, 0.0], [1.0, 3.0e38, 3.0e38]];
+    let speeds: [[f32; 3]; 9] = [[600.0, 500.0, 400.0], [0.0, 0.0, 0.0], [1.0e-30, 0.0, 1.0], [100.0, 100.0, 100.0], [3.0e38, 1.0, 100.0], [0.0, 100.0, 0.0], [1.0, 3.0e38, 3.0e38],
+        // near ties: neighbours within 1 %, extremes further apart, in both directions
+        [101.2, 100.6, 100.0], [100.0, 100.6, 101.2]];
     let mut failing = 0usize;
     let mut n = 0usize;
     let mut fail = |msg: String| { failing += 1; if failing <= 3 { println!("FAILING-INPUT: {}", msg); } };
